@@ -1,18 +1,17 @@
-/* memWipe counter normalisation through the public function only (C15). */
+/* memWipe counter normalisation (C15, C18, C07).
+   memWipe() fills with a pattern that depends on a hidden 8-bit call counter, and the library
+   feeds wiped buffers back into the shared generator (rngRekey, rngCreate): without a common
+   starting point two executions of the same simulated run differ.  The guarded hook
+   memVerifReset() (H-reset) restarts the counter; it does not depend on how the pattern is
+   computed, so a maintainer may change the pattern freely.  (An earlier version stepped the
+   counter through the public function until a known value had been written; that relied on the
+   exact arithmetic of memWipe and broke under a behaviour-preserving change of the pattern.) */
 #include "simk.h"
 #include "bee2/core/mem.h"
 
-static unsigned char wbuf[32] __attribute__((aligned(16)));
+void memVerifReset(void);
 
 void sk_wipe_normalise(void)
 {
-	/* a 1-octet wipe at an address = 15 (mod 16) writes the current counter
-	   and advances it by 17 (odd), so <= 256 calls reach any residue */
-	int i;
-	for (i = 0; i < 600; ++i)
-	{
-		memWipe(wbuf + 15, 1);
-		if (wbuf[15] == (unsigned char)(0 - 17))
-			return; /* counter is now 0 */
-	}
+	memVerifReset();
 }
